@@ -163,8 +163,18 @@ pub fn shape_dims(s: &Shape) -> Vec<usize> {
     }
 }
 
-/// Dimensions actually present in the data (independent of the recorded shape).
+/// Dimensions actually present in the data (independent of the recorded shape).  RAGGED data (a channel or row whose
+/// length differs from the first one's -- e.g. one channel stored transposed) has no dimensions: the result then carries
+/// an extra marker element, so that it equals no expected shape.
 pub fn data_dims(d: &Data) -> Vec<usize> {
+    let mut dims = first_dims(d);
+    if !regular_for(d, &dims) {
+        dims.push(999_999_999);
+    }
+    dims
+}
+
+fn first_dims(d: &Data) -> Vec<usize> {
     match d {
         Data::Single(a) => vec![a.len()],
         Data::Double(a) => vec![a.len(), a.first().map(|r| r.len()).unwrap_or(0)],
@@ -189,7 +199,10 @@ pub fn data_dims(d: &Data) -> Vec<usize> {
 
 /// Is every row of the data as long as the dimensions say (no ragged rows)?
 pub fn data_regular(d: &Data) -> bool {
-    let dims = data_dims(d);
+    regular_for(d, &first_dims(d))
+}
+
+fn regular_for(d: &Data, dims: &[usize]) -> bool {
     match d {
         Data::Single(_) => true,
         Data::Double(a) => a.iter().all(|r| r.len() == dims[1]),
